@@ -23,6 +23,7 @@ type Processor struct {
 	work    chan struct{}
 	threads int
 	wg      *sync.WaitGroup
+	closed  sync.Once
 }
 
 // Return a new Processor to operate the function f over the number of threads specified taking
@@ -55,7 +56,8 @@ func NewProcessor(queue chan Operator, buffer int, threads int) (p *Processor) {
 				}
 				p.work <- struct{}{}
 				if len(p.work) == p.threads {
-					close(p.out)
+					// Several workers can observe a full token pool; close only once.
+					p.closed.Do(func() { close(p.out) })
 				}
 				p.wg.Done()
 			}()
